@@ -152,7 +152,7 @@ impl WorldB {
 
     fn pick_variant(&self, rng: &mut Rng) -> u64 {
         match self.cfg.family.as_str() {
-            "handshake" | "hostile" => *rng.pick(&[0u64, 0, 0, 0, 1, 2, 3, 4, 4]),
+            "handshake" | "hostile" => *rng.pick(&[0u64, 0, 0, 0, 1, 2, 3, 4, 4, 5]),
             "liveness" => 0,
             _ => *rng.pick(&[0u64, 0, 0, 4]),
         }
